@@ -64,7 +64,7 @@ def check_inventory(ctx, fb):
         else:
             ctx.fail("R18-2", "static " + p, "new global `%s` of type %s: results may depend on call order or interleaving (the inventory allows only the two "
                      "immutable lazies ZKEY and POSEIDON)" % (p, it.get("ty")), loc(it))
-    ctx.floor("statics", n, 3)
+    ctx.floor("statics", n, 2)
     # interior mutability in workspace types
     m = 0
     for p, a in sorted(fb.adts.items()):
@@ -132,7 +132,7 @@ def check_parallel(ctx, fb):
         eff = sorted(n for n in ext if any(re.search(d, n) for d in DENY))
         ctx.check(not bad and not eff and not statics, "R18-3", it.path.split(">::")[-1], "captures %s: shared references only; no lock/atomic/global reached" % ups,
                   "parallel loop body captures %s / reaches %s %s: a shared accumulator makes the result depend on the schedule" % (bad or ups, eff, sorted(statics)), loc(it))
-    ctx.floor("parallel-closures", len(cls), 4)
+    ctx.floor("parallel-closures", len(cls), 1)
 
 
 def strip_widen(t):
